@@ -146,8 +146,16 @@ impl Unknown {
         match (&mut self.0, other.0) {
             (Inner::Exact(lhs), Inner::Exact(rhs)) => lhs.merge_keep(*rhs, overwrite),
             (Inner::Infinite(lhs), Inner::Infinite(rhs)) => lhs.merge(rhs),
-            (_, rhs @ Inner::Infinite(_)) => self.0 = rhs,
-            (Inner::Infinite(_), _) => {}
+            // A union keeps everything the exact side admits.
+            (Inner::Exact(lhs), Inner::Infinite(rhs)) => {
+                let rhs = if overwrite { rhs } else { rhs.covering(lhs) };
+                self.0 = Inner::Infinite(rhs);
+            }
+            (Inner::Infinite(lhs), Inner::Exact(rhs)) => {
+                if !overwrite {
+                    *lhs = lhs.covering(&rhs);
+                }
+            }
         }
     }
 }
@@ -211,6 +219,18 @@ impl Infinite {
             null: Some(()),
             array: Some(()),
             object: Some(()),
+        }
+    }
+
+    /// `self`, or `any` if `self` does not admit every value of `kind`.
+    fn covering(self, kind: &Kind) -> Self {
+        if Kind::from(self)
+            .is_superset(&kind.clone().without_undefined())
+            .is_ok()
+        {
+            self
+        } else {
+            Self::any()
         }
     }
 
